@@ -261,7 +261,11 @@ impl<'store> ResultItem<'store, Annotation> {
     ) -> impl Iterator<Item = ResultTextSelection<'store>> {
         //first we gather all textselections for this annotation in a set, as the chosen operator may apply to them jointly
         let tset: TextSelectionSet = self.textselections().collect();
-        tset.as_resultset(self.store()).related_text(operator)
+        //(an annotation that selects no text has no related text; an empty set belongs to no resource)
+        (!tset.is_empty())
+            .then(|| tset.as_resultset(self.store()).related_text(operator))
+            .into_iter()
+            .flatten()
     }
 
     /// Returns the text this resources references as a single text selection set.
